@@ -808,7 +808,12 @@ def role_shader0(rng, big_arrays=True, entry_names=False):
         e["result"] = fres
     S["entries"].append(e)
     if rng.random() < 0.5:
-        S["entries"].append({"name": "cs_main", "stage": "compute", "params": cparams, "body": uses("compute"), "wg": [str(rng.choice([1, 8, 64]))] + ([str(rng.choice([1, 4]))] if rng.random() < 0.5 else [])})
+        if rng.random() < 0.25:
+            # a workgroup size given by constant expressions
+            S["consts"].append({"name": "WG_N", "decl": "u32", "expr": "4u", "expect": "u32:4"})
+            S["entries"].append({"name": "cs_main", "stage": "compute", "params": cparams, "body": uses("compute"), "wg": rng.choice([["WG_N"], ["8", "WG_N"], ["WG_N * 2u", "1", "WG_N"]])})
+        else:
+            S["entries"].append({"name": "cs_main", "stage": "compute", "params": cparams, "body": uses("compute"), "wg": [str(rng.choice([1, 8, 64]))] + ([str(rng.choice([1, 4]))] if rng.random() < 0.5 else [])})
     if cparams and not any(e["stage"] == "compute" for e in S["entries"]):
         S["structs"] = [x for x in S["structs"] if x["name"] != "ComputeInput"]
     if entry_names:
